@@ -114,6 +114,7 @@ fn events_json(ev: &[Event]) -> String {
             Event::RawSlice(et, alloc, avail, stride, len) => format!("[\"rawslice\",{},{},{},{},{}]", jstr(et), jstr(alloc), avail, stride, len),
             Event::Fmt(s) => format!("[\"fmt\",{}]", jstr(s)),
             Event::FmtVal(t) => format!("[\"fmtval\",{}]", t),
+            Event::FmtArg(t) => format!("[\"fmtarg\",{}]", t),
             Event::BadRead(s) => format!("[\"badread\",{}]", jstr(s)),
             Event::Note(s) => format!("[\"note\",{}]", jstr(s)),
         })
